@@ -117,6 +117,55 @@ fn c10_kf_accepted_dictionary_panics() {
     core::mem::forget(tok_owned);
 }
 
+//@ c10_mapper_then_nonsquare {"desc":"arbitrary mapping sequences: composing two valid mappings of a non-square connector (what a second map_connection_ids_from_iter call does) never indexes outside either table and yields, on each side, the permutation 'first, then second'","bounds":"4 right ids x 3 left ids (id 0 fixed); both mappings arbitrary permutations","symbolic":"both mappings","functions":["ConnIdMapper::then","ConnIdMapper::left","ConnIdMapper::right"],"unwind":8,"timeout":600}
+#[cfg(kani)]
+#[kani::proof]
+fn c10_mapper_then_nonsquare() {
+    const NL: usize = 3;
+    const NR: usize = 4;
+    fn perm(n: usize, out: &mut [u16; 4]) -> Vec<u16> {
+        let mut v = Vec::with_capacity(n + 1);
+        let mut seen = [false; 4];
+        for i in 0..n {
+            let x: u16 = kani::any();
+            kani::assume((x as usize) < n);
+            kani::assume(if i == 0 { x == 0 } else { x != 0 });
+            for k in 0..4 {
+                if k == x as usize {
+                    kani::assume(!seen[k]);
+                    seen[k] = true;
+                }
+            }
+            out[i] = x;
+            v.push(x);
+        }
+        v
+    }
+    let (mut l1, mut r1, mut l2, mut r2) = ([0u16; 4], [0u16; 4], [0u16; 4], [0u16; 4]);
+    let m1 = ConnIdMapper::new(perm(NL, &mut l1), perm(NR, &mut r1));
+    let m2 = ConnIdMapper::new(perm(NL, &mut l2), perm(NR, &mut r2));
+    let m = m1.then(&m2);
+    assert!(m.num_left() == NL && m.num_right() == NR);
+    for i in 0..NL {
+        for k in 0..NL {
+            if l1[i] as usize == k {
+                assert!(m.left(i as u16) == l2[k], "composed left table is not 'first, then second'");
+            }
+        }
+    }
+    for i in 0..NR {
+        for k in 0..NR {
+            if r1[i] as usize == k {
+                assert!(m.right(i as u16) == r2[k], "composed right table is not 'first, then second'");
+            }
+        }
+    }
+    kani::cover!(r1[1] == 3 && l1[1] == 2);
+    core::mem::forget(m);
+    core::mem::forget(m1);
+    core::mem::forget(m2);
+}
+
 //@ c10_twin {"expect":"fail","desc":"vacuity twin: claims verify accepts every parameter","bounds":"as c10_verify_ids","symbolic":"ids","functions":["Lexicon::verify"],"fs":2048,"unwind":8,"timeout":600,"covers":"none"}
 #[cfg(kani)]
 #[kani::proof]
